@@ -11,7 +11,8 @@
 //	                  printed.  The Lean driver (model mode) keeps the set of model states that explain
 //	                  all observations so far (the model as an acceptor, all schedules explored).
 //	new conc k=v...   ONE line: concurrent submitters (with/without deadlines) racing Start / Shutdown /
-//	                  ShutdownNow / States, tasks that return, block (released later) or panic; monitors:
+//	                  ShutdownNow / States, tasks that return, fail, panic, or are held until released and then
+//	                  return / panic / fail (hpan=, herr= percent of the held ones); monitors:
 //	                  per-task run counters, returned tasks run in marked mode, high-water mark of
 //	                  concurrently running tasks, States() GoCnt, runs before Start, done-channel closure
 //	                  vs task completion, call log with global sequence numbers, hang detection.
@@ -131,7 +132,7 @@ func (e *env) releaseAll()                      { e.relOnce.Do(func() { close(e.
 type vtask struct {
 	e       *env
 	id      int
-	beh     string // ret | err | block | panic | spin
+	beh     string // ret | err | block | panic | spin | bpanic | berr (held like block, then panic / fail)
 	runs    int32
 	marked  int32
 	fin     int64 // sequence number at completion (0 = not finished)
@@ -177,10 +178,18 @@ func (t *vtask) Run(ctx context.Context) error {
 		atomic.StoreInt64(&t.fin, e.next())
 	}()
 	switch t.beh {
-	case "block":
+	case "block", "bpanic", "berr":
+		// held inside Run until the scenario releases it — typically across a lifecycle change (Shutdown with a
+		// backlog behind it) — and only then it ends: normally, by panicking, or with a plain error
 		select {
 		case <-t.rel:
 		case <-e.relAll:
+		}
+		if t.beh == "bpanic" {
+			panic("verif task panic after release")
+		}
+		if t.beh == "berr" {
+			return errVerifTask
 		}
 	case "ext":
 		if t.body != nil {
@@ -616,6 +625,8 @@ func concCase(c conf, st *stats) string {
 
 	subs, per := c.i("subs", 2), c.i("per", 3)
 	dlPct, blkPct, panPct := c.i("dl", 30), c.i("blk", 20), c.i("pan", 10)
+	// of the held (blocking) tasks: the share that ends with a panic / with a plain error once released
+	hpanPct, herrPct := c.i("hpan", 0), c.i("herr", 0)
 	span := c.i("span", 600) // µs over which submissions are spread
 	var wg sync.WaitGroup
 	// pre-draw every random choice so the scenario is a function of the case line
@@ -632,6 +643,11 @@ func concCase(c conf, st *stats) string {
 			switch {
 			case x < blkPct:
 				sp.beh = "block"
+				if y := r.Intn(100); y < hpanPct {
+					sp.beh = "bpanic"
+				} else if y < hpanPct+herrPct {
+					sp.beh = "berr"
+				}
 			case x < blkPct+panPct:
 				sp.beh = "panic"
 			case x < blkPct+panPct+15:
